@@ -51,12 +51,21 @@ class RemoveEmptyStringConcatenation(
     ) -> cst.BaseExpression:
         left = updated_node.left
         right = updated_node.right
+
+        def keep_parentheses(operand: cst.BaseExpression) -> cst.BaseExpression:
+            # the operand takes the place of the whole expression: parentheses
+            # around the latter (e.g. of a multi-line concatenation) stay
+            return operand.with_changes(
+                lpar=[*updated_node.lpar, *operand.lpar],
+                rpar=[*operand.rpar, *updated_node.rpar],
+            )
+
         if is_empty_string_literal(left):
             if is_empty_string_literal(right):
-                return cst.SimpleString(value='""')
-            return right
+                return keep_parentheses(cst.SimpleString(value='""'))
+            return keep_parentheses(right)
         if is_empty_string_literal(right):
             if is_empty_string_literal(left):
-                return cst.SimpleString(value='""')
-            return left
+                return keep_parentheses(cst.SimpleString(value='""'))
+            return keep_parentheses(left)
         return updated_node
